@@ -3,6 +3,7 @@
 from __future__ import annotations
 
 import io
+import signal
 import struct
 import sys
 import time
@@ -31,6 +32,7 @@ NSH = {"quick": 16, "thorough": 32}
 SHARD_TIMEOUT = {"quick": 300, "thorough": 2400}
 
 OPS = b"@ABCDEFGHIJKLMNOPQRST"
+WATCHDOG_S = 5.0  # the loader is linear in its input; inputs are at most a few KB
 
 _audit = {"armed": False, "events": []}
 
@@ -52,6 +54,16 @@ def shards(tier, seed):
 
 class PosStream(io.BytesIO):
     pass
+
+
+class LoadTimeout(BaseException):
+    """raised by the SIGALRM watchdog inside a load that does not terminate"""
+
+
+def _alarm(signum, frame):
+    if _audit["armed"]:  # i.e. a load is in progress
+        raise LoadTimeout()
+    signal.setitimer(signal.ITIMER_REAL, WATCHDOG_S)
 
 
 def amplifying(data: bytes) -> bool:
@@ -99,6 +111,7 @@ class Loader:
 
         gb.Channel.__init__ = counting_init
         self.bucket: list[bytes] = []
+        self._n_since_arm = 10**9
 
     def check(self, data: bytes, kind: str, must_fail: bool = False, via_load: bool = False):
         res = self.res
@@ -120,6 +133,11 @@ class Loader:
         _audit["events"].clear()
         _audit["armed"] = True
         t0 = time.perf_counter()
+        self._n_since_arm += 1
+        if self._n_since_arm >= 200:
+            # one timer re-armed every 200 loads: a load that does not return is still interrupted within WATCHDOG_S
+            self._n_since_arm = 0
+            signal.setitimer(signal.ITIMER_REAL, WATCHDOG_S)
         try:
             try:
                 if via_load:
@@ -129,6 +147,11 @@ class Loader:
             finally:
                 _audit["armed"] = False
                 dt = time.perf_counter() - t0
+        except LoadTimeout:
+            signal.setitimer(signal.ITIMER_REAL, WATCHDOG_S)
+            self._n_since_arm = 0
+            res.violation("load-does-not-terminate", f"no result after {WATCHDOG_S}s [{kind}] for {len(data)}-byte input hex={data.hex()[:200]}")
+            return
         except execnet.DataFormatError:
             res.count("out_DataFormatError")
         except EOFError:
@@ -284,6 +307,7 @@ def run_shard(spec):
     rng = core.rng_for("C13", spec["tier"], spec["seed"], spec["shard"])
     g = values.Gen(rng, max_bytes=200, huge_ints=False, max_depth=4)
     sys.addaudithook(_hook)
+    signal.signal(signal.SIGALRM, _alarm)
     L = Loader(res)
     execnet = L.execnet
     # warm up codecs etc. before arming the audit hook
@@ -295,6 +319,8 @@ def run_shard(spec):
     # ---- mutations of valid dumps
     nd = spec["ndumps"]
     for di in range(nd):
+        if res.enough(3):
+            break
         if di % 3 == 0:
             v = g.special(di // 3 + spec["shard"] * 5)
         else:
@@ -311,6 +337,8 @@ def run_shard(spec):
         L.check(data, "valid")
         # every strict prefix must fail
         for k in range(len(data)):
+            if res.enough(3):
+                break
             res.count("prefixes")
             L.check(data[:k], "prefix", must_fail=True, via_load=(k % 2 == 0))
         exhaustive = len(data) <= 64
@@ -320,6 +348,8 @@ def run_shard(spec):
         else:
             res.count("dumps_mutated_sampled")
         for p in positions:
+            if res.enough(3):
+                break
             subs = range(256) if exhaustive else [rng.randrange(256) for _ in range(24)] + list(OPS)
             for b in subs:
                 if b != data[p]:
@@ -333,11 +363,14 @@ def run_shard(spec):
 
     # ---- grammar-driven abuse and soups
     for s in abuse_streams(rng, g):
+        if res.enough(3):
+            break
         L.check(s, "abuse")
         if len(s) < 40:
             for k in range(len(s)):
                 L.check(s[:k], "abuse_prefix")
 
+    signal.setitimer(signal.ITIMER_REAL, 0)
     L.run_bucket()
     res.info["memory_bucket_note"] = "inputs with a NEWLIST length > 10x input size run under RLIMIT_AS"
     return res
